@@ -18,6 +18,8 @@ ExplainedOut(ev) ==
          /\ ev.outcome = "ok"
          /\ ev.out = JoinD(ev.a1, ev.a2)
          /\ ev.out_iter = JoinD(ev.a1, ev.a2)
+    [] ev.e = "joinitems" ->
+         ev.outcome = "ok" /\ ev.out = JoinItemsD(ev.a1, ev.a2)
     [] ev.e = "starts" ->
          ev.outcome = "ok" /\ ev.out = (IF StartsWith(ev.a1, ev.a2) THEN <<1>> ELSE <<0>>)
     [] OTHER -> FALSE
@@ -30,6 +32,7 @@ FinalAcc(ev) ==
   CASE ev.e = "split" /\ ev.a2 # <<>>   -> SplitD(ev.a1, ev.a2)
     [] ev.e = "replace" /\ ev.a2 # <<>> -> ReplaceD(ev.a1, ev.a2, ev.a3)
     [] ev.e = "join"                     -> JoinD(ev.a1, ev.a2)
+    [] ev.e = "joinitems"                -> JoinItemsD(ev.a1, ev.a2)
     [] ev.e = "starts"                   -> (IF StartsWith(ev.a1, ev.a2) THEN <<1>> ELSE <<0>>)
     [] OTHER -> <<>>
 
@@ -46,7 +49,9 @@ TCall ==
   /\ l <= TraceLen /\ TraceLog[l].e # "Reset"
   /\ LET ev == TraceLog[l] IN
        /\ Explained(ev)
-       /\ op' = ev.e /\ a1' = ev.a1 /\ a2' = ev.a2
+       \* a join over streamable elements is a join over their texts: the join laws are evaluated on those
+       /\ op' = (IF ev.e = "joinitems" THEN "join" ELSE ev.e)
+       /\ a1' = (IF ev.e = "joinitems" THEN ElemTexts(ev.a1) ELSE ev.a1) /\ a2' = ev.a2
        /\ a3' = (IF ev.e = "replace" THEN ev.a3 ELSE <<>>)
        /\ acc' = FinalAcc(ev)
        /\ outcome' = (IF ev.e = "split" /\ ev.a2 = <<>> THEN "raise"
